@@ -48,6 +48,8 @@ var (
 	refFunder = chain.Acct("ref-funder")
 	refFresh1 = common.HexToAddress("0xf4e5000000000000000000000000000000000001")
 	refFresh2 = common.HexToAddress("0xf4e5000000000000000000000000000000000002")
+	// refNativePre: a stateless Ethereum precompile (identity): value sent to it stays there like in any account
+	refNativePre = common.HexToAddress("0x0000000000000000000000000000000000000004")
 )
 
 const refFrames = 4
@@ -64,7 +66,7 @@ func refBase() *chain.Node {
 }
 
 func refTargets(self int) []string {
-	t := []string{refSigner.Hex.Hex(), refThird.Hex.Hex(), refFresh1.Hex(), refFresh2.Hex(), evmasm.FrameAddr(self).Hex()}
+	t := []string{refSigner.Hex.Hex(), refThird.Hex.Hex(), refFresh1.Hex(), refFresh2.Hex(), refNativePre.Hex(), evmasm.FrameAddr(self).Hex()}
 	for i := 0; i < refFrames; i++ {
 		t = append(t, evmasm.FrameAddr(i).Hex())
 	}
@@ -80,7 +82,7 @@ func genRefCase(t *rapid.T) RefCase {
 	// precompile call fits into the stipend depends on gas rules the reference EVM does not have
 	targets := func(self int) []string {
 		if withQueries {
-			return []string{refSigner.Hex.Hex(), refThird.Hex.Hex(), refFresh1.Hex(), refFresh2.Hex()}
+			return []string{refSigner.Hex.Hex(), refThird.Hex.Hex(), refFresh1.Hex(), refFresh2.Hex(), refNativePre.Hex()}
 		}
 		return refTargets(self)
 	}
@@ -200,17 +202,21 @@ func genRefCase(t *rapid.T) RefCase {
 		if rapid.Bool().Draw(t, "re-alt-writes") {
 			alt = append(alt, evmasm.Op{Kind: "sstore", Key: uint64(rapid.IntRange(0, 3).Draw(t, "re-ak")), Val: uint64(rapid.IntRange(0, 2).Draw(t, "re-av"))})
 		}
-		switch rapid.IntRange(0, 3).Draw(t, "re-alt-end") {
+		switch rapid.IntRange(0, 5).Draw(t, "re-alt-end") {
 		case 0, 1:
 			alt = append(alt, evmasm.Op{Kind: "selfdestruct", Target: rapid.SampledFrom(targets(pI)).Draw(t, "re-heir")})
 		case 2:
 			alt = append(alt, evmasm.Op{Kind: "send", Target: rapid.SampledFrom(targets(pI)).Draw(t, "re-to"), Value: "1", NoRecord: true})
+		case 3, 4:
+			alt = append(alt, evmasm.Op{Kind: "revert"}) // the re-entered contract refuses (and is caught by Q)
 		}
 		if len(alt) == 0 {
 			alt = []evmasm.Op{{Kind: "log", Key: 7}}
 		}
 		c.Prog.Frames[pI].Alt = alt
-		q := []evmasm.Op{{Kind: "call", Child: pI, Alt: true, CallOp: rapid.SampledFrom([]string{"CALL", "CALL", "DELEGATECALL"}).Draw(t, "re-callop"), Value: "0", NoRecord: rapid.Bool().Draw(t, "re-qnorec")}}
+		// (Q's very first action may be to pay part of what it just received back to its caller)
+		q := []evmasm.Op{{Kind: "call", Child: pI, Alt: true, CallOp: rapid.SampledFrom([]string{"CALL", "CALL", "DELEGATECALL"}).Draw(t, "re-callop"),
+			Value: rapid.SampledFrom([]string{"0", "1", "1"}).Draw(t, "re-qvalue"), NoRecord: rapid.Bool().Draw(t, "re-qnorec")}}
 		if rapid.Bool().Draw(t, "re-q-writes") {
 			q = append(q, evmasm.Op{Kind: "sstore", Key: 1, Val: 2})
 		}
@@ -315,6 +321,35 @@ func runRef(c RefCase, class func(string)) (discs []refDisc, nontrivial bool) {
 			}
 		}
 	}
+	// destructibleCtx[a]: some code that can execute in a's context (its own, or reached from it through
+	// DELEGATECALL / CALLCODE) contains a SELFDESTRUCT
+	destructibleCtx := map[common.Address]bool{}
+	{
+		reach := func(i int) map[int]bool {
+			out := map[int]bool{i: true}
+			for changed := true; changed; {
+				changed = false
+				for k := range out {
+					for _, op := range append(append([]evmasm.Op{}, c.Prog.Frames[k].Ops...), c.Prog.Frames[k].Alt...) {
+						if op.Kind == "call" && (op.CallOp == "DELEGATECALL" || op.CallOp == "CALLCODE") && !out[op.Child] {
+							out[op.Child] = true
+							changed = true
+						}
+					}
+				}
+			}
+			return out
+		}
+		for i := range c.Prog.Frames {
+			for k := range reach(i) {
+				for _, op := range append(append([]evmasm.Op{}, c.Prog.Frames[k].Ops...), c.Prog.Frames[k].Alt...) {
+					if op.Kind == "selfdestruct" {
+						destructibleCtx[evmasm.FrameAddr(i)] = true
+					}
+				}
+			}
+		}
+	}
 	// every slot a program can write, in every storage context
 	var slots []common.Hash
 	for k := 0; k < 4; k++ {
@@ -328,7 +363,7 @@ func runRef(c RefCase, class func(string)) (discs []refDisc, nontrivial bool) {
 			slots = append(slots, evmasm.ResultSlot(i, evmasm.AltBase+j))
 		}
 	}
-	watched := []common.Address{refSigner.Hex, refThird.Hex, refFresh1, refFresh2}
+	watched := []common.Address{refSigner.Hex, refThird.Hex, refFresh1, refFresh2, refNativePre}
 	for i := 0; i < refFrames; i++ { // also the frame addresses this program does not populate: they are possible targets
 		watched = append(watched, evmasm.FrameAddr(i))
 	}
@@ -437,6 +472,12 @@ func runRef(c RefCase, class func(string)) (discs []refDisc, nontrivial bool) {
 			if hasPre && untouchedInRef(a) {
 				return "flush-then-revert:" + what + "-of-undirtied-account"
 			}
+			if hasPre && destructibleCtx[a] && len(rr.State.GetCode(a)) > 0 {
+				// a third face: a SELFDESTRUCT executed in this account's context inside a frame that flushed (the flush
+				// deletes the account's code and storage from the stores) and then failed; the journal resurrects the
+				// account, but the final Commit skips slots it believes are already stored
+				return "flush-then-revert:" + what + "-after-flushed-selfdestruct"
+			}
 			if hasPre && absent[a] {
 				// the other face of the same finding: an account first created inside a frame that flushed and then
 				// failed loses its state object in the revert; when it is touched again later in the transaction it is
@@ -466,10 +507,14 @@ func runRef(c RefCase, class func(string)) (discs []refDisc, nontrivial bool) {
 					who = "eoa"
 				case refFresh1, refFresh2:
 					who = "fresh-address"
+				case refNativePre:
+					who = "native-precompile-address"
 				}
 				key := flushKey(a, "ref-balance:"+who, "balance")
 				knownFlush = knownFlush || key != "ref-balance:"+who
 				discs = append(discs, refDisc{"C02", key, fmt.Sprintf("%s: balance of %s is %s, reference %s (fees added back for the signer)", desc, a.Hex(), got, want)})
+				// (a balance change that should have been undone with its frame is also C05's matter)
+				discs = append(discs, refDisc{"C05", key, fmt.Sprintf("%s: balance of %s is %s, reference %s (fees added back for the signer)", desc, a.Hex(), got, want)})
 			}
 		}
 		if dChain, dRef := new(big.Int).Sub(n.Supply(), supply0), new(big.Int).Sub(refTotal, total); dChain.Cmp(dRef) != 0 {
